@@ -97,6 +97,41 @@ def kv_obligations(ctx: Any, R: str) -> List[Ob]:
     return obs
 
 
+def index_shape_obligations(ctx: Any, R: str) -> List[Ob]:
+    """Every index of the record cache maps its key to a *collection* of records (a keyed store per name / per host):
+    several records legitimately share an owner name, a target host or an instance name (a type and its subtypes point at
+    the same instance), so an index that keeps a single record per key silently loses all but the last one -- and the
+    removal of one drops the entry for the others."""
+    prog = ctx.prog
+    cache = prog.cls(CACHE)
+    init = cache.methods['__init__']
+    me = init.params[0]
+    recs = {c.name for c in prog.classes.values() if c.full.startswith('zeroconf._dns.')}
+    obs: List[Ob] = []
+    for st in walk_local_ordered(init.node):
+        if not (isinstance(st, ast.AnnAssign) and self_attr(st.target, me)):
+            continue
+        ann = st.annotation
+        if isinstance(ann, ast.Name) and ann.id in init.module.assigns:
+            ann = init.module.assigns[ann.id]  # a module-level type alias
+        if isinstance(ann, ast.Constant) and isinstance(ann.value, str):
+            try:
+                ann = ast.parse(ann.value, mode='eval').body
+            except SyntaxError:
+                continue
+        if not (isinstance(ann, ast.Subscript) and norm(ann.value).split('.')[-1] in ('Dict', 'dict', 'DefaultDict', 'OrderedDict') and isinstance(ann.slice, ast.Tuple) and len(ann.slice.elts) == 2):
+            continue
+        k, v = ann.slice.elts
+        mentions_records = any(isinstance(x, ast.Name) and x.id in recs for x in ast.walk(ann))
+        if not mentions_records:
+            continue
+        single = isinstance(v, ast.Name) and v.id in recs and not (isinstance(k, ast.Name) and k.id in recs)
+        obs.append(ob(R, init, st, f'index `{st.target.attr}` keeps a collection of records per key', not single, f'`{st.target.attr}: {norm(ann)}` keeps ONE record per key: records that share the key overwrite each other' if single else ''))
+    if len(obs) < 2:
+        raise AnalysisError('anchor vanished: annotated record indexes in DNSCache.__init__')
+    return obs
+
+
 @rule('C05.TWOINDEX', 'N', expect_min=5)
 def twoindex(ctx: Any) -> List[Ob]:
     """Sibling agreement of add and remove on the two indexes: the service-host
@@ -132,6 +167,7 @@ def twoindex(ctx: Any) -> List[Ob]:
                 prof.setdefault(idx, set()).add((key.attr if isinstance(key, ast.Attribute) else norm(key), ' and '.join(guards)))
         return prof
 
+    obs.extend(index_shape_obligations(ctx, R))
     pa, pr = profile(add), profile(rem)
     for idx in INDEXES:
         obs.append(ob(R, add, f'self.{idx}: add uses {sorted(pa.get(idx, []))}', f'add and remove maintain `{idx}` under the same condition with the same key attribute', pa.get(idx) == pr.get(idx) and bool(pa.get(idx)), f'remove uses {sorted(pr.get(idx, []))}'))
